@@ -26,9 +26,17 @@ theorem src_datetime_mod_rs_fn_signed_duration_since : C03_src_datetime_mod_rs_f
 theorem src_datetime_mod_rs_impl_Add : C03_src_datetime_mod_rs_impl_Add =
     ["<", "Tz", "TimeZone", ">", "Add", "<", "TimeDelta", ">", "for", "DateTime", "<", "Tz", ">", "Output", "DateTime", "<", "Tz", ">", "add(", "self", "v1", "TimeDelta", "->", "DateTime", "<", "Tz", ">", "self", "checked_add_signed(", "v1", "expect(", "\"…\"", "§", "<", "Tz", "TimeZone", ">", "Add", "<", "Duration", ">", "for", "DateTime", "<", "Tz", ">", "Output", "DateTime", "<", "Tz", ">", "add(", "self", "v1", "Duration", "->", "DateTime", "<", "Tz", ">", "v1", "TimeDelta", "from_std(", "v1", "expect(", "\"…\"", "self", "checked_add_signed(", "v1", "expect(", "\"…\"", "§", "<", "Tz", "TimeZone", ">", "Add", "<", "FixedOffset", ">", "for", "DateTime", "<", "Tz", ">", "Output", "DateTime", "<", "Tz", ">", "add(", "self", "v1", "FixedOffset", "->", "DateTime", "<", "Tz", ">", "self", "v2", "self", "naive_utc(", "checked_add_offset(", "v1", "expect(", "\"…\"", "self", "§", "<", "Tz", "TimeZone", ">", "Add", "<", "Months", ">", "for", "DateTime", "<", "Tz", ">", "Output", "DateTime", "<", "Tz", ">", "add(", "self", "v1", "Months", "->", "Self", "Output", "self", "checked_add_months(", "v1", "expect(", "\"…\"", "§", "<", "Tz", "TimeZone", ">", "Add", "<", "Days", ">", "for", "DateTime", "<", "Tz", ">", "Output", "DateTime", "<", "Tz", ">", "add(", "self", "v1", "Days", "->", "Self", "Output", "self", "checked_add_days(", "v1", "expect(", "\"…\""] := by decide +kernel
 
+/-- src/datetime/mod.rs:impl AddAssign -/
+theorem src_datetime_mod_rs_impl_AddAssign : C03_src_datetime_mod_rs_impl_AddAssign =
+    ["<", "Tz", "TimeZone", ">", "AddAssign", "<", "TimeDelta", ">", "for", "DateTime", "<", "Tz", ">", "add_assign(", "&", "self", "v1", "TimeDelta", "v2", "self", "v2", "checked_add_signed(", "v1", "expect(", "\"…\"", "v3", "self", "timezone(", "*", "self", "v3", "from_utc_datetime(", "&", "v2", "§", "<", "Tz", "TimeZone", ">", "AddAssign", "<", "Duration", ">", "for", "DateTime", "<", "Tz", ">", "add_assign(", "&", "self", "v1", "Duration", "v1", "TimeDelta", "from_std(", "v1", "expect(", "\"…\"", "*", "self", "+=", "v1"] := by decide +kernel
+
 /-- src/datetime/mod.rs:impl Sub -/
 theorem src_datetime_mod_rs_impl_Sub : C03_src_datetime_mod_rs_impl_Sub =
     ["<", "Tz", "TimeZone", ">", "Sub", "<", "TimeDelta", ">", "for", "DateTime", "<", "Tz", ">", "Output", "DateTime", "<", "Tz", ">", "sub(", "self", "v1", "TimeDelta", "->", "DateTime", "<", "Tz", ">", "self", "checked_sub_signed(", "v1", "expect(", "\"…\"", "§", "<", "Tz", "TimeZone", ">", "Sub", "<", "Duration", ">", "for", "DateTime", "<", "Tz", ">", "Output", "DateTime", "<", "Tz", ">", "sub(", "self", "v1", "Duration", "->", "DateTime", "<", "Tz", ">", "v1", "TimeDelta", "from_std(", "v1", "expect(", "\"…\"", "self", "checked_sub_signed(", "v1", "expect(", "\"…\"", "§", "<", "Tz", "TimeZone", ">", "Sub", "<", "FixedOffset", ">", "for", "DateTime", "<", "Tz", ">", "Output", "DateTime", "<", "Tz", ">", "sub(", "self", "v1", "FixedOffset", "->", "DateTime", "<", "Tz", ">", "self", "v2", "self", "naive_utc(", "checked_sub_offset(", "v1", "expect(", "\"…\"", "self", "§", "<", "Tz", "TimeZone", ">", "Sub", "<", "Months", ">", "for", "DateTime", "<", "Tz", ">", "Output", "DateTime", "<", "Tz", ">", "sub(", "self", "v1", "Months", "->", "Self", "Output", "self", "checked_sub_months(", "v1", "expect(", "\"…\"", "§", "<", "Tz", "TimeZone", ">", "Sub", "<", "DateTime", "<", "Tz", ">>", "for", "DateTime", "<", "Tz", ">", "Output", "TimeDelta", "sub(", "self", "v1", "DateTime", "<", "Tz", ">", "->", "TimeDelta", "self", "signed_duration_since(", "v1", "§", "<", "Tz", "TimeZone", ">", "Sub", "<", "&", "DateTime", "<", "Tz", ">>", "for", "DateTime", "<", "Tz", ">", "Output", "TimeDelta", "sub(", "self", "v1", "&", "DateTime", "<", "Tz", ">", "->", "TimeDelta", "self", "signed_duration_since(", "v1", "§", "<", "Tz", "TimeZone", ">", "Sub", "<", "Days", ">", "for", "DateTime", "<", "Tz", ">", "Output", "DateTime", "<", "Tz", ">", "sub(", "self", "v1", "Days", "->", "Self", "Output", "self", "checked_sub_days(", "v1", "expect(", "\"…\""] := by decide +kernel
+
+/-- src/datetime/mod.rs:impl SubAssign -/
+theorem src_datetime_mod_rs_impl_SubAssign : C03_src_datetime_mod_rs_impl_SubAssign =
+    ["<", "Tz", "TimeZone", ">", "SubAssign", "<", "TimeDelta", ">", "for", "DateTime", "<", "Tz", ">", "sub_assign(", "&", "self", "v1", "TimeDelta", "v2", "self", "v2", "checked_sub_signed(", "v1", "expect(", "\"…\"", "v3", "self", "timezone(", "*", "self", "v3", "from_utc_datetime(", "&", "v2", "§", "<", "Tz", "TimeZone", ">", "SubAssign", "<", "Duration", ">", "for", "DateTime", "<", "Tz", ">", "sub_assign(", "&", "self", "v1", "Duration", "v1", "TimeDelta", "from_std(", "v1", "expect(", "\"…\"", "*", "self", "-=", "v1"] := by decide +kernel
 
 /-- src/naive/date/mod.rs:fn add_days -/
 theorem src_naive_date_mod_rs_fn_add_days : C03_src_naive_date_mod_rs_fn_add_days =
@@ -54,6 +62,14 @@ theorem src_naive_date_mod_rs_fn_checked_sub_signed : C03_src_naive_date_mod_rs_
 theorem src_naive_date_mod_rs_fn_signed_duration_since : C03_src_naive_date_mod_rs_fn_signed_duration_since =
     ["self", "v1", "NaiveDate", "->", "TimeDelta", "v2", "self", "year(", "v3", "v1", "year(", "let(", "v4", "v5", "div_mod_floor(", "v2", "400", "let(", "v6", "v7", "div_mod_floor(", "v3", "400", "v8", "yo_to_cycle(", "v5", "as", "u32", "self", "ordinal(", "as", "i64", "v9", "yo_to_cycle(", "v7", "as", "u32", "v1", "ordinal(", "as", "i64", "v10", "v4", "as", "i64", "-", "v6", "as", "i64", "*", "146097", "+", "v8", "-", "v9", "expect(", "TimeDelta", "try_days(", "v10", "\"…\""] := by decide +kernel
 
+/-- src/naive/date/mod.rs:impl AddAssign -/
+theorem src_naive_date_mod_rs_impl_AddAssign : C03_src_naive_date_mod_rs_impl_AddAssign =
+    ["AddAssign", "<", "TimeDelta", ">", "for", "NaiveDate", "add_assign(", "&", "self", "v1", "TimeDelta", "*", "self", "self", "add(", "v1"] := by decide +kernel
+
+/-- src/naive/date/mod.rs:impl SubAssign -/
+theorem src_naive_date_mod_rs_impl_SubAssign : C03_src_naive_date_mod_rs_impl_SubAssign =
+    ["SubAssign", "<", "TimeDelta", ">", "for", "NaiveDate", "sub_assign(", "&", "self", "v1", "TimeDelta", "*", "self", "self", "sub(", "v1"] := by decide +kernel
+
 /-- src/naive/date/mod.rs:type NaiveDateDaysIterator -/
 theorem src_naive_date_mod_rs_type_NaiveDateDaysIterator : C03_src_naive_date_mod_rs_type_NaiveDateDaysIterator =
     ["v1", "NaiveDate", "§", "Iterator", "for", "NaiveDateDaysIterator", "Item", "NaiveDate", "next(", "&", "self", "->", "Option", "<", "Self", "Item", ">", "v1", "self", "v2", "self", "v2", "v1", "succ_opt(", "?", "Some(", "v1", "size_hint(", "&", "self", "->", "usize", "Option", "<", "usize", ">", "v3", "NaiveDate", "MAX", "signed_duration_since(", "self", "v2", "num_days(", "v3", "as", "usize", "Some(", "v3", "as", "usize", "§", "ExactSizeIterator", "for", "NaiveDateDaysIterator", "§", "DoubleEndedIterator", "for", "NaiveDateDaysIterator", "next_back(", "&", "self", "->", "Option", "<", "Self", "Item", ">", "v1", "self", "v2", "self", "v2", "v1", "pred_opt(", "?", "Some(", "v1", "§", "FusedIterator", "for", "NaiveDateDaysIterator"] := by decide +kernel
@@ -73,6 +89,22 @@ theorem src_naive_datetime_mod_rs_fn_checked_sub_signed : C03_src_naive_datetime
 /-- src/naive/datetime/mod.rs:fn signed_duration_since -/
 theorem src_naive_datetime_mod_rs_fn_signed_duration_since : C03_src_naive_datetime_mod_rs_fn_signed_duration_since =
     ["self", "v1", "NaiveDateTime", "->", "TimeDelta", "expect(", "self", "v2", "signed_duration_since(", "v1", "v2", "checked_add(", "&", "self", "v3", "signed_duration_since(", "v1", "v3", "\"…\""] := by decide +kernel
+
+/-- src/naive/datetime/mod.rs:impl Add -/
+theorem src_naive_datetime_mod_rs_impl_Add : C03_src_naive_datetime_mod_rs_impl_Add =
+    ["Add", "<", "TimeDelta", ">", "for", "NaiveDateTime", "Output", "NaiveDateTime", "add(", "self", "v1", "TimeDelta", "->", "NaiveDateTime", "self", "checked_add_signed(", "v1", "expect(", "\"…\"", "§", "Add", "<", "Duration", ">", "for", "NaiveDateTime", "Output", "NaiveDateTime", "add(", "self", "v1", "Duration", "->", "NaiveDateTime", "v1", "TimeDelta", "from_std(", "v1", "expect(", "\"…\"", "self", "checked_add_signed(", "v1", "expect(", "\"…\"", "§", "Add", "<", "FixedOffset", ">", "for", "NaiveDateTime", "Output", "NaiveDateTime", "add(", "self", "v1", "FixedOffset", "->", "NaiveDateTime", "self", "checked_add_offset(", "v1", "expect(", "\"…\"", "§", "Add", "<", "Months", ">", "for", "NaiveDateTime", "Output", "NaiveDateTime", "add(", "self", "v1", "Months", "->", "Self", "Output", "self", "checked_add_months(", "v1", "expect(", "\"…\"", "§", "Add", "<", "Days", ">", "for", "NaiveDateTime", "Output", "NaiveDateTime", "add(", "self", "v1", "Days", "->", "Self", "Output", "self", "checked_add_days(", "v1", "expect(", "\"…\""] := by decide +kernel
+
+/-- src/naive/datetime/mod.rs:impl AddAssign -/
+theorem src_naive_datetime_mod_rs_impl_AddAssign : C03_src_naive_datetime_mod_rs_impl_AddAssign =
+    ["AddAssign", "<", "TimeDelta", ">", "for", "NaiveDateTime", "add_assign(", "&", "self", "v1", "TimeDelta", "*", "self", "self", "add(", "v1", "§", "AddAssign", "<", "Duration", ">", "for", "NaiveDateTime", "add_assign(", "&", "self", "v1", "Duration", "*", "self", "self", "add(", "v1"] := by decide +kernel
+
+/-- src/naive/datetime/mod.rs:impl Sub -/
+theorem src_naive_datetime_mod_rs_impl_Sub : C03_src_naive_datetime_mod_rs_impl_Sub =
+    ["Sub", "<", "TimeDelta", ">", "for", "NaiveDateTime", "Output", "NaiveDateTime", "sub(", "self", "v1", "TimeDelta", "->", "NaiveDateTime", "self", "checked_sub_signed(", "v1", "expect(", "\"…\"", "§", "Sub", "<", "Duration", ">", "for", "NaiveDateTime", "Output", "NaiveDateTime", "sub(", "self", "v1", "Duration", "->", "NaiveDateTime", "v1", "TimeDelta", "from_std(", "v1", "expect(", "\"…\"", "self", "checked_sub_signed(", "v1", "expect(", "\"…\"", "§", "Sub", "<", "FixedOffset", ">", "for", "NaiveDateTime", "Output", "NaiveDateTime", "sub(", "self", "v1", "FixedOffset", "->", "NaiveDateTime", "self", "checked_sub_offset(", "v1", "expect(", "\"…\"", "§", "Sub", "<", "Months", ">", "for", "NaiveDateTime", "Output", "NaiveDateTime", "sub(", "self", "v1", "Months", "->", "Self", "Output", "self", "checked_sub_months(", "v1", "expect(", "\"…\"", "§", "Sub", "<", "NaiveDateTime", ">", "for", "NaiveDateTime", "Output", "TimeDelta", "sub(", "self", "v1", "NaiveDateTime", "->", "TimeDelta", "self", "signed_duration_since(", "v1", "§", "Sub", "<", "Days", ">", "for", "NaiveDateTime", "Output", "NaiveDateTime", "sub(", "self", "v1", "Days", "->", "Self", "Output", "self", "checked_sub_days(", "v1", "expect(", "\"…\""] := by decide +kernel
+
+/-- src/naive/datetime/mod.rs:impl SubAssign -/
+theorem src_naive_datetime_mod_rs_impl_SubAssign : C03_src_naive_datetime_mod_rs_impl_SubAssign =
+    ["SubAssign", "<", "TimeDelta", ">", "for", "NaiveDateTime", "sub_assign(", "&", "self", "v1", "TimeDelta", "*", "self", "self", "sub(", "v1", "§", "SubAssign", "<", "Duration", ">", "for", "NaiveDateTime", "sub_assign(", "&", "self", "v1", "Duration", "*", "self", "self", "sub(", "v1"] := by decide +kernel
 
 /-- src/naive/time/mod.rs:fn overflowing_add_signed -/
 theorem src_naive_time_mod_rs_fn_overflowing_add_signed : C03_src_naive_time_mod_rs_fn_overflowing_add_signed =
